@@ -100,7 +100,9 @@ class CoherenceAnalyzer(BaseAnalyzer):
         the constructor fixed it"""
         BaseAnalyzer.set_input(self, input)
         if self._Fs_from_input:
-            self.method['Fs'] = self.input.sampling_rate
+            # a dict of its own: shallow copies of the analyzer (and whoever
+            # else holds the dict) keep the rate of THEIR input
+            self.method = dict(self.method, Fs=self.input.sampling_rate)
 
     @desc.setattr_on_read
     def coherency(self):
@@ -504,7 +506,9 @@ class SparseCoherenceAnalyzer(BaseAnalyzer):
         the constructor fixed it"""
         BaseAnalyzer.set_input(self, input)
         if self._Fs_from_input:
-            self.method['Fs'] = self.input.sampling_rate
+            # a dict of its own: shallow copies of the analyzer (and whoever
+            # else holds the dict) keep the rate of THEIR input
+            self.method = dict(self.method, Fs=self.input.sampling_rate)
 
     @desc.setattr_on_read
     def coherency(self):
